@@ -138,8 +138,10 @@ def validate(traces, workdir, module="TraceStore", jvms=12, chunk=25, timeout=90
         if debug:
             for m in re.finditer(r'<<"MISMATCH"(?:.|\n)*?>>\n(?=[^ ])', out):
                 print(m.group(0)[:6000])
-        if r["rc"] == -9:
+        if r["rc"] == -9 and '"VIOL"' not in out:
             raise C.Inconclusive("TLC trace validation timed out")
+        if r["rc"] == -9:
+            stats["partial"] = True     # so many violations that TLC did not finish printing them: use what it reported
         stats["states"] += r["distinct"]
         stats["generated"] += r["generated"]
         for m in re.finditer(r'<<"VIOL", \{([^}]*)\}, "([^"]*)", (\d+)>>', out):
